@@ -42,5 +42,41 @@ for g, e in zip(got, exp):
     if g != e:
         bad += 1
         if bad < 20: print("DIFF\n  lean  :", g, "\n  python:", e)
-print(f"compared {len(exp)} lines, mismatches: {bad}")
-sys.exit(1 if bad else 0)
+print(f"exhaustive: compared {len(exp)} lines, mismatches: {bad}")
+
+# ---- random part: longer series over dyadic values k/4 (exact in binary64), zero-rich, several tolerances
+import random, tempfile, os
+from fractions import Fraction
+rng = random.Random(12)
+cases = []
+for _ in range(3000):
+    n = rng.randint(1, 40)
+    mode = rng.random()
+    if mode < 0.4:   vals = [Fraction(rng.choice([-8,-4,-2,-1,0,0,0,1,2,4,8]), 4) for _ in range(n)]
+    elif mode < 0.8: vals = [Fraction(rng.randint(-12, 12), 4) for _ in range(n)]
+    else:            vals = [Fraction(rng.choice([-1, 0, 1]) * rng.randint(0, 3), 8) for _ in range(n)]
+    tol = rng.choice([Fraction(0), Fraction(1, 4), Fraction(1, 2), Fraction(1), Fraction(3, 2), Fraction(2), Fraction(3)])
+    ka = rng.choice("TF")
+    cases.append(("Z", ka, tol, vals)); cases.append(("S", None, tol, vals))
+def fr(q): return str(q.numerator) if q.denominator == 1 else f"{q.numerator}/{q.denominator}"
+with tempfile.NamedTemporaryFile("w", suffix=".txt", delete=False) as f:
+    for kind, ka, tol, vals in cases:
+        head = f"Z {ka} {fr(tol)}" if kind == "Z" else f"S {fr(tol)}"
+        f.write(head + " " + " ".join(fr(x) for x in vals) + "\n")
+    path = f.name
+p = subprocess.run(["lake", "env", "lean", "--run", "Scratch.lean", "file", path], cwd=proj, capture_output=True, text=True)
+if p.returncode != 0:
+    print(p.stderr); sys.exit(2)
+got = [l.split(" => ")[1] for l in p.stdout.splitlines() if " => " in l]
+os.unlink(path)
+rbad = 0
+if len(got) != len(cases):
+    print("RANDOM LINE COUNT MISMATCH", len(got), len(cases)); rbad += 1
+for g, (kind, ka, tol, vals) in zip(got, cases):
+    fv = [float(x) for x in vals]
+    e = run(zc, fv, ka == "T", float(tol)) if kind == "Z" else run(sw, fv, float(tol))
+    if g != e:
+        rbad += 1
+        if rbad < 20: print("DIFF", kind, ka, tol, [str(x) for x in vals], "\n  lean  :", g, "\n  python:", e)
+print(f"random: compared {len(cases)} cases, mismatches: {rbad}")
+sys.exit(1 if (bad or rbad) else 0)
